@@ -9,8 +9,8 @@ use crate::endpoints::*;
 use crate::engine::*;
 use crate::refcbor;
 use crate::rng::Rng;
-use crate::traffic::*;
 use crate::trace::*;
+use crate::traffic::*;
 use crate::util::{hash_bytes, hex_short, Hasher64};
 use coset::CborSerializable;
 
@@ -31,8 +31,41 @@ fn tag_numbers(own: u64) -> Vec<u64> {
     // every small tag number, the other IANA tags a decoder might "look through", and numbers
     // derived from the own tag by arithmetic (truncation / shifting mistakes)
     v.extend(0..=127u64);
-    v.extend([24u64, 63, 256 + own, (own << 8) | own, own << 16, (own << 16) | own, own << 32, (own << 32) | own, own + (1 << 16) * 3, own * 257, own + (1 << 8), 0x1_0000_0000 - 1 + own]);
-    v.extend([0, 1, 2, 3, 4, 5, 24, 55, 61, 255, 256, 55799, 65535, 65536, 1 << 32, u64::MAX, own + 256, own + 65536, own << 8]);
+    v.extend([
+        24u64,
+        63,
+        256 + own,
+        (own << 8) | own,
+        own << 16,
+        (own << 16) | own,
+        own << 32,
+        (own << 32) | own,
+        own + (1 << 16) * 3,
+        own * 257,
+        own + (1 << 8),
+        0x1_0000_0000 - 1 + own,
+    ]);
+    v.extend([
+        0,
+        1,
+        2,
+        3,
+        4,
+        5,
+        24,
+        55,
+        61,
+        255,
+        256,
+        55799,
+        65535,
+        65536,
+        1 << 32,
+        u64::MAX,
+        own + 256,
+        own + 65536,
+        own << 8,
+    ]);
     v.sort();
     v.dedup();
     v
@@ -52,7 +85,10 @@ impl Delivery {
     fn for_untagged(&self) -> bool {
         let reg = |n: &u64| REG_TAGS.iter().any(|(_, r)| r == n);
         match self.kind {
-            "tag-rewrite" => matches!(self.tags[0], 0 | 1 | 2 | 3 | 24 | 61 | 63 | 55799 | u64::MAX),
+            "tag-rewrite" => matches!(
+                self.tags[0],
+                0 | 1 | 2 | 3 | 24 | 61 | 63 | 55799 | u64::MAX
+            ),
             "double-tag" => self.tags.iter().all(reg),
             _ => true,
         }
@@ -61,7 +97,11 @@ impl Delivery {
 
 fn deliveries(own: u64, extra: &[u64]) -> Vec<Delivery> {
     let mut out = Vec::new();
-    out.push(Delivery { prefix: vec![], tags: vec![], kind: "untagged" });
+    out.push(Delivery {
+        prefix: vec![],
+        tags: vec![],
+        kind: "untagged",
+    });
     let mut numbers = tag_numbers(own);
     numbers.extend_from_slice(extra);
     numbers.sort();
@@ -69,10 +109,18 @@ fn deliveries(own: u64, extra: &[u64]) -> Vec<Delivery> {
     for n in numbers {
         // every head width for the registered numbers and their neighbours; for the rest the
         // minimal width plus one wider width (which one rotates with the number)
-        let near_registered = REG_TAGS.iter().any(|(_, r)| n.saturating_add(1) >= *r && n <= *r + 1);
+        let near_registered = REG_TAGS
+            .iter()
+            .any(|(_, r)| n.saturating_add(1) >= *r && n <= *r + 1);
         let rot = [1u8, 2, 4, 8][(n % 4) as usize];
         for w in [0u8, 1, 2, 4, 8] {
-            if !near_registered && refcbor::head_width(6, n, w).map(|h| h != refcbor::head(6, n)).unwrap_or(false) && w != rot && w != 8 {
+            if !near_registered
+                && refcbor::head_width(6, n, w)
+                    .map(|h| h != refcbor::head(6, n))
+                    .unwrap_or(false)
+                && w != rot
+                && w != 8
+            {
                 continue;
             }
             if let Some(h) = refcbor::head_width(6, n, w) {
@@ -88,7 +136,11 @@ fn deliveries(own: u64, extra: &[u64]) -> Vec<Delivery> {
                 } else {
                     "tag-rewrite"
                 };
-                out.push(Delivery { prefix: h, tags: vec![n], kind });
+                out.push(Delivery {
+                    prefix: h,
+                    tags: vec![n],
+                    kind,
+                });
             }
         }
     }
@@ -98,10 +150,18 @@ fn deliveries(own: u64, extra: &[u64]) -> Vec<Delivery> {
     for n in tag_numbers(own) {
         let mut p = refcbor::head(6, n);
         p.extend(refcbor::head(6, own));
-        out.push(Delivery { prefix: p, tags: vec![n, own], kind: "double-tag" });
+        out.push(Delivery {
+            prefix: p,
+            tags: vec![n, own],
+            kind: "double-tag",
+        });
         let mut p = refcbor::head(6, own);
         p.extend(refcbor::head(6, n));
-        out.push(Delivery { prefix: p, tags: vec![own, n], kind: "double-tag" });
+        out.push(Delivery {
+            prefix: p,
+            tags: vec![own, n],
+            kind: "double-tag",
+        });
     }
     // malformed tag heads (corruption in the head's additional-information bits): the reserved
     // values 28..30 followed by 0..64 argument bytes whose low-order bytes spell the own tag, the
@@ -115,7 +175,11 @@ fn deliveries(own: u64, extra: &[u64]) -> Vec<Delivery> {
                 arg[n - 1 - i] = be[7 - i];
             }
             p.extend(arg);
-            out.push(Delivery { prefix: p, tags: vec![], kind: "malformed-head" });
+            out.push(Delivery {
+                prefix: p,
+                tags: vec![],
+                kind: "malformed-head",
+            });
             if n >= 16 {
                 // own tag in the high-order half instead
                 let mut p = vec![0xc0 | ai];
@@ -124,28 +188,46 @@ fn deliveries(own: u64, extra: &[u64]) -> Vec<Delivery> {
                     arg[7 - i] = be[7 - i];
                 }
                 p.extend(arg);
-                out.push(Delivery { prefix: p, tags: vec![], kind: "malformed-head" });
+                out.push(Delivery {
+                    prefix: p,
+                    tags: vec![],
+                    kind: "malformed-head",
+                });
             }
         }
     }
     // a tag head of every other major type's initial byte with the own tag as argument
     for major in [0u8, 1, 2, 3, 4, 5, 7] {
         if let Some(h) = refcbor::head_width(major, own, 1) {
-            out.push(Delivery { prefix: h, tags: vec![], kind: "malformed-head" });
+            out.push(Delivery {
+                prefix: h,
+                tags: vec![],
+                kind: "malformed-head",
+            });
         }
     }
     // triple: own tag thrice
     let mut p = refcbor::head(6, own);
     p.extend(refcbor::head(6, own));
     p.extend(refcbor::head(6, own));
-    out.push(Delivery { prefix: p, tags: vec![own, own, own], kind: "double-tag" });
+    out.push(Delivery {
+        prefix: p,
+        tags: vec![own, own, own],
+        kind: "double-tag",
+    });
     out
 }
 
 fn six(form: Form) -> Vec<&'static Endpoint> {
     REG_TAGS
         .iter()
-        .filter_map(|(ty, _)| if form == Form::Tagged { tagged_of(ty) } else { untagged_of(ty) })
+        .filter_map(|(ty, _)| {
+            if form == Form::Tagged {
+                tagged_of(ty)
+            } else {
+                untagged_of(ty)
+            }
+        })
         .collect()
 }
 
@@ -215,13 +297,26 @@ impl Engine for C14 {
             t.push(Step::new("msg", "body", vec![Arg::B(body)]));
             return t;
         }
-        let cfg = if rng.chance(1, 8) { GenCfg::medium() } else { GenCfg::small() };
+        let cfg = if rng.chance(1, 8) {
+            GenCfg::medium()
+        } else {
+            GenCfg::small()
+        };
         let kind = rng.weighted(&[10, 3, 2, 2, 3, 3, 2]);
         let (body, kname) = match kind {
             0 => (gen_wire(&mut rng, ty, false, &cfg), "valid"),
             1 => {
                 // body of another structure (some share their shape with `ty`)
-                let other = ["CoseSign", "CoseSign1", "CoseMac", "CoseMac0", "CoseEncrypt", "CoseEncrypt0", "CoseRecipient", "CoseSignature"];
+                let other = [
+                    "CoseSign",
+                    "CoseSign1",
+                    "CoseMac",
+                    "CoseMac0",
+                    "CoseEncrypt",
+                    "CoseEncrypt0",
+                    "CoseRecipient",
+                    "CoseSignature",
+                ];
                 let o = other[rng.below(other.len())];
                 (gen_wire(&mut rng, o, false, &cfg), "other-structure")
             }
@@ -266,7 +361,15 @@ impl Engine for C14 {
                 let mut out = Vec::new();
                 let widen = rng.range(0, 6) as u32;
                 let indef = rng.range(1, 8) as u32;
-                refcbor::write_item(&it, &mut out, &mut refcbor::Seeded { rng: &mut rng, widen, indef });
+                refcbor::write_item(
+                    &it,
+                    &mut out,
+                    &mut refcbor::Seeded {
+                        rng: &mut rng,
+                        widen,
+                        indef,
+                    },
+                );
                 (out, "non-canonical")
             }
             _ => {
@@ -282,7 +385,9 @@ impl Engine for C14 {
         t.set_meta("body", kname);
         t.push(Step::new("msg", "body", vec![Arg::B(body)]));
         // 16 seeded tag numbers of every magnitude on top of the fixed palette
-        let extra: Vec<Arg> = (0..16).map(|_| Arg::I((rng.next_u64() >> rng.below(64)) as i128)).collect();
+        let extra: Vec<Arg> = (0..16)
+            .map(|_| Arg::I((rng.next_u64() >> rng.below(64)) as i128))
+            .collect();
         t.push(Step::new("tags", "extra", extra));
         t
     }
@@ -326,7 +431,12 @@ impl Engine for C14 {
             match guarded(|| (ep.decode)(&u)) {
                 Ok(Ok(d)) => base.push(Some(d)),
                 Ok(Err(_)) => base.push(None),
-                Err(p) => return Ok(Some(Violation::new("C14.panic", format!("{} panicked on {}: {}", ep.name, hex_short(&u), p)))),
+                Err(p) => {
+                    return Ok(Some(Violation::new(
+                        "C14.panic",
+                        format!("{} panicked on {}: {}", ep.name, hex_short(&u), p),
+                    )))
+                }
             }
         }
         let own_idx = REG_TAGS.iter().position(|(x, _)| *x == ty).unwrap();
@@ -335,7 +445,11 @@ impl Engine for C14 {
         } else {
             st.inc("probe:body-rejected-by-own-type");
         }
-        if base.iter().enumerate().any(|(i, b)| i != own_idx && b.is_some()) {
+        if base
+            .iter()
+            .enumerate()
+            .any(|(i, b)| i != own_idx && b.is_some())
+        {
             st.inc("probe:body-accepted-by-another-type");
         }
 
@@ -385,17 +499,26 @@ impl Engine for C14 {
                         if tv != want {
                             return Ok(Some(Violation::new(
                                 "C14.tag-form",
-                                format!("{}: to_tagged_vec = {} but tag {} applied once to to_vec = {}", bty, hex_short(&tv), reg, hex_short(&want)),
+                                format!(
+                                    "{}: to_tagged_vec = {} but tag {} applied once to to_vec = {}",
+                                    bty,
+                                    hex_short(&tv),
+                                    reg,
+                                    hex_short(&want)
+                                ),
                             )));
                         }
                     }
                     (Ok(Err(_)), Ok(Some(Err(_)))) => {}
-                    (uv, tv) => {
-                        return Ok(Some(Violation::new(
-                            "C14.tag-form",
-                            format!("{}: a decoded value failed to encode: to_vec {:?}, to_tagged_vec {:?}", bty, uv.map(|r| r.is_ok()), tv.map(|r| r.map(|x| x.is_ok()))),
-                        )))
-                    }
+                    (uv, tv) => return Ok(Some(Violation::new(
+                        "C14.tag-form",
+                        format!(
+                            "{}: a decoded value failed to encode: to_vec {:?}, to_tagged_vec {:?}",
+                            bty,
+                            uv.map(|r| r.is_ok()),
+                            tv.map(|r| r.map(|x| x.is_ok()))
+                        ),
+                    ))),
                 }
             }
         }
@@ -413,7 +536,9 @@ impl Engine for C14 {
             v
         };
         let extra: Vec<u64> = match t.steps.iter().find(|s| s.kind == "tags") {
-            Some(st) => (0..st.args.len()).map(|i| st.u64(i)).collect::<HResult<Vec<u64>>>()?,
+            Some(st) => (0..st.args.len())
+                .map(|i| st.u64(i))
+                .collect::<HResult<Vec<u64>>>()?,
             None => vec![],
         };
         let all = deliveries(own, &extra);
@@ -429,12 +554,23 @@ impl Engine for C14 {
         };
 
         for d in &all {
-            if big && !matches!(d.kind, "own-tag" | "own-tag(wide head)" | "misdeliver(other registered tag)" | "untagged") {
+            if big
+                && !matches!(
+                    d.kind,
+                    "own-tag"
+                        | "own-tag(wide head)"
+                        | "misdeliver(other registered tag)"
+                        | "untagged"
+                )
+            {
                 continue;
             }
             let mut bytes = d.prefix.clone();
             bytes.extend_from_slice(&u);
-            let value_ok = matches!(guarded(|| coset::cbor::value::Value::from_slice(&bytes)), Ok(Ok(_)));
+            let value_ok = matches!(
+                guarded(|| coset::cbor::value::Value::from_slice(&bytes)),
+                Ok(Ok(_))
+            );
             for (form, eps) in [(Form::Tagged, &tagged_eps), (Form::Untagged, &untagged_eps)] {
                 for (i, ep) in eps.iter().enumerate() {
                     if big && ep.ty != ty {
@@ -443,7 +579,11 @@ impl Engine for C14 {
                     if form == Form::Untagged && (d.prefix.is_empty() || !d.for_untagged()) {
                         continue; // the baseline / not in the untagged subset
                     }
-                    if !only.is_empty() && !only.iter().any(|(e, p, tg)| e == ep.name && *p == d.prefix && *tg == d.tags) {
+                    if !only.is_empty()
+                        && !only
+                            .iter()
+                            .any(|(e, p, tg)| e == ep.name && *p == d.prefix && *tg == d.tags)
+                    {
                         continue;
                     }
                     st.inc("evaluations");
@@ -452,7 +592,11 @@ impl Engine for C14 {
                         Ok(r) => r,
                         Err(p) => {
                             return Ok(Some(
-                                Violation::new("C14.panic", format!("{} panicked on {}: {}", ep.name, hex_short(&bytes), p)).narrowed(narrowed(ep, d)),
+                                Violation::new(
+                                    "C14.panic",
+                                    format!("{} panicked on {}: {}", ep.name, hex_short(&bytes), p),
+                                )
+                                .narrowed(narrowed(ep, d)),
                             ))
                         }
                     };
@@ -466,7 +610,10 @@ impl Engine for C14 {
                     // decoder accepts.  (An earlier version additionally required that coset's own
                     // Value decoder accepts the tagged bytes; that hid the fact that the tag costs the
                     // CBOR parser one nesting level - see DESIGN.md 10.8.)
-                    let must_accept = form == Form::Tagged && d.tags.len() == 1 && d.tags[0] == reg_b && base[i].is_some();
+                    let must_accept = form == Form::Tagged
+                        && d.tags.len() == 1
+                        && d.tags[0] == reg_b
+                        && base[i].is_some();
                     if must_accept && !value_ok {
                         st.inc("probe:own-tag-over-accepted-body-but-not-a-Value");
                     }
@@ -516,7 +663,15 @@ impl Engine for C14 {
                             return Ok(Some(
                                 Violation::new(
                                     "C14.cross-accept",
-                                    format!("{}: {} (sender type {}, tags {:?}, prefix {}, body {})", ep.name, why, ty, d.tags, hex_short(&d.prefix), hex_short(&u)),
+                                    format!(
+                                        "{}: {} (sender type {}, tags {:?}, prefix {}, body {})",
+                                        ep.name,
+                                        why,
+                                        ty,
+                                        d.tags,
+                                        hex_short(&d.prefix),
+                                        hex_short(&u)
+                                    ),
                                 )
                                 .narrowed(narrowed(ep, d)),
                             ));
